@@ -109,7 +109,7 @@ type nodeOpts struct {
 	seeds     []string
 	snapThr   uint64
 	trailing  uint64
-	store     storage.ManagedStore // optional pre-built (wrapped) store
+	store     storage.ManagedStore    // optional pre-built (wrapped) store
 	snapCh    chan *protocol.Snapshot // optional: the snapshots channel (not drained by the harness)
 }
 
